@@ -455,8 +455,8 @@ def run_session(c):
             combined = analysis.make_result(samples_summary=summary, paths=None)
             kids = list(combined.child_results)
             idx = [i for i, m in enumerate(joint) if m is first]
-            if len(idx) == 1 and kids[idx[0]].samples_summary.model is first:
-                res = kids[idx[0]]
+            if len(idx) == 1 and len(kids) == len(joint):
+                res = kids[idx[0]]          # whether it really is the result for `first` is reported (child_is_model)
                 state["route"] = "make_result"
         if res is None:
             res = af.Result(samples_summary=summary.subsamples(first), paths=None)
